@@ -724,3 +724,22 @@ func checkSettersStore(e *Engine, r *Report, rule, pkg string, typeNames ...stri
 	}
 	r.MinInstances("plain setters of "+strings.Join(typeNames, "/"), n, 2)
 }
+
+// skippedOnSuccess returns a witness path from fn's entry to a return that may succeed which passes none of the given
+// instructions (nil when every successful path passes at least one of them). Existence rules ("the function stores X")
+// use it to require that the matched statement is not merely present but unavoidable.
+func (e *Engine) skippedOnSuccess(fn *ssa.Function, must ...ssa.Instruction) []ssa.Instruction {
+	set := map[ssa.Instruction]bool{}
+	for _, m := range must {
+		if m != nil && m.Parent() == fn {
+			set[m] = true
+		}
+	}
+	if len(set) == 0 {
+		return nil
+	}
+	return FindPath(PathQuery{Fn: fn, Block: func(in ssa.Instruction) bool { return set[in] }, Target: func(in ssa.Instruction) bool {
+		ret, ok := in.(*ssa.Return)
+		return ok && e.maySucceed(ret)
+	}})
+}
